@@ -831,8 +831,12 @@ func (c *SpecCtx) call(e *SExpr) *Val {
 		sl := x.GT.Underlying().(*types.Slice)
 		return &Val{T: X.strOfBytes(c.state(), x.T, sl.Elem()), GT: types.Typ[types.String]}
 	case "visited":
-		// visited(k): key k has been produced by the innermost range-over-map iterator
-		c.fail("visited() not available here")
+		// visited(x): element x has been handed to the callback by the Set.Each iteration being specified
+		if X.eachVisited == nil {
+			c.fail("visited() not available here")
+		}
+		x := c.eval(e.Args[0])
+		return &Val{T: ts.Select(X.eachVisited, x.T), GT: boolT}
 	}
 	if gm, ok := X.E.Specs.GhostMaps[e.Name]; ok {
 		return c.ghostMapRead(gm, e)
